@@ -57,7 +57,8 @@ PROBES = {"stale_accelerator": 1, "mismatched_accelerator": 1,
           "midx_points_at_removed_pack": 1, "commit_graph_used": 1,
           "bitmap_present": 1, "long_lived_queried": 1,
           "two_octopus_merges": 1,
-          "refs_read_during_packed_refs_rewrite": 1}
+          "refs_read_during_packed_refs_rewrite": 1,
+          "writer_handle_queried": 1}
 MIN_BUDGET = 120
 
 ACCEL = ["commit-graph", "midx", "bitmap", "packed-refs"]
@@ -102,6 +103,7 @@ def gen_plan(seed, tier):
                                        "new_ref_packed"])
                            for _ in range(rng.randint(1, 3))],
                 "reads": rng.randint(1, 4)}]),
+            "keep_writer": rng.random() < 0.5,
             "octopus": rng.choice([0, 0, 0, 0.3, 0.6]),
             "warm": rng.choice(["get_raw", "get_raw", "contains", "packs",
                                 "none"])}
@@ -191,8 +193,12 @@ def answers(repo, u, ids, absent, commits, pairs, tag="A"):
         q(("reachable-commits", tuple(haves), tuple(wants)), reach)
 
         def reach_objs(wants=wants):
+            # (the providers agree on what a *closed* set of commits holds;
+            # for a set that is not closed under ancestry the interface does
+            # not say whether ancestors count)
             prov = st.get_reachability_provider()
-            return tuple(sorted(prov.get_reachable_objects(list(wants))))
+            cs = prov.get_reachable_commits(list(wants), [], shallow)
+            return tuple(sorted(prov.get_reachable_objects(sorted(cs))))
         q(("reachable-objects", tuple(wants)), reach_objs)
         if len(wants) >= 1 and haves:
             def mb(a=wants[0], b=haves[0]):
@@ -292,7 +298,15 @@ def run_plan(plan):
                 stats["probe:bitmap_present"] = 1
             except Exception as e:  # noqa: BLE001
                 viol(f"bitmap-generation-failed/{type(e).__name__}", repr(e))
-        r.close()
+        # node G: the very handle that wrote the accelerators and keeps using
+        # what it generated in memory (asked only while nothing has changed)
+        node_g = None
+        if plan.get("keep_writer") and not plan["stale"] and \
+                not plan["mismatch"] and not plan.get("race"):
+            node_g = r
+            stats["probe:writer_handle_queried"] = 1
+        else:
+            r.close()
         # ---- the long-lived node opens now and warms its caches
         node_c = None
         if plan["long_lived"]:
@@ -530,6 +544,9 @@ def run_plan(plan):
         try:
             ans_b = answers(node_b, u, known, absent, commits_q, prs, "B")
             ans_a = answers(node_a, u, known, absent, commits_q, prs, "A")
+            ans_g = None
+            if node_g is not None:
+                ans_g = answers(node_g, u, known, absent, commits_q, prs, "G")
             ans_c = None
             if node_c is not None:
                 stats["probe:long_lived_queried"] = 1
@@ -538,6 +555,8 @@ def run_plan(plan):
         finally:
             node_a.close()
             node_b.close()
+            if node_g is not None:
+                node_g.close()
             if node_c is not None:
                 node_c.close()
         gc.collect()
@@ -560,7 +579,7 @@ def run_plan(plan):
         what = "+".join(sorted(acc)) or "none"
         ctx = f"accel={acc} idx=v{plan['idx_version']} stale={plan['stale']} " \
               f"mismatch={plan['mismatch']} rewrite={plan['rewrite_after']}"
-        for who, ans in (("A", ans_a), ("C", ans_c)):
+        for who, ans in (("A", ans_a), ("C", ans_c), ("G", ans_g)):
             if ans is None:
                 continue
             for key, vb in ans_b.items():
@@ -579,10 +598,23 @@ def run_plan(plan):
                     if kind in ("get_raw", "contains") and vb in (
                             "KeyError", False):
                         continue
+                if who == "G":
+                    # the handle that generated bitmaps answers from them.
+                    # The two reachability providers implement different
+                    # readings of 'exclude' (stop at / subtract the closure
+                    # of) and of get_reachable_objects (with / without root
+                    # trees and ancestors) -- an ambiguity of that interface,
+                    # not an effect of the accelerator: only questions both
+                    # read the same way are compared
+                    if kind == "reachable-objects":
+                        continue
+                    if kind == "reachable-commits" and key[1]:
+                        continue
                 if isinstance(va, str) and va.startswith("BAD:"):
                     viol(f"abnormal-exception/{kind}/{va[4:]}", f"{ctx}")
                     continue
                 cls = "answer-differs" if who == "A" else \
+                    "writer-handle-differs" if who == "G" else \
                     "long-lived-instance-stale"
                 cause = plan["mismatch"] and f"mismatched-{plan['mismatch']}" \
                     or (plan["stale"] and "stale") or "fresh"
